@@ -10,6 +10,13 @@ import (
 	"time"
 
 	"seehuhn.de/go/sfnt"
+	"seehuhn.de/go/sfnt/cmap"
+	"seehuhn.de/go/sfnt/kern"
+	"seehuhn.de/go/sfnt/maxp"
+	"seehuhn.de/go/sfnt/name"
+	"seehuhn.de/go/sfnt/opentype/gdef"
+	"seehuhn.de/go/sfnt/opentype/gtab"
+	"seehuhn.de/go/sfnt/post"
 	v "seehuhn.de/go/sfnt/verifharness/vlib"
 )
 
@@ -111,3 +118,24 @@ func DeepCopyFont(f *sfnt.Font) *sfnt.Font    { return deepCopyFont(f) }
 func Rehome(f *sfnt.Font, seed uint64) *Arena { return rehome(f, seed) }
 func (a *Arena) Memory() []byte               { return a.buf }
 func (a *Arena) OddLengths() int              { return a.odd }
+
+// ---- identities and decoded values, for the part C01C ----
+
+func GtabID(info *gtab.Info) (v.Sx, error)                { return gtabID(info) }
+func GdefID(t *gdef.Table) (v.Sx, error)                  { return gdefID(t) }
+func NamesID(names []string) v.Sx                         { return namesID(names) }
+func MaxpID(m *maxp.TTFInfo) v.Sx                         { return maxpID(m) }
+func CmapSx(t cmap.Table) (v.Sx, error)                   { return cmapSx(t) }
+func OutlSx(o sfnt.Outlines, fileView bool) (v.Sx, error) { return outlSx(o, fileView) }
+func KernGposID(k kern.Info) (v.Sx, error)                { return gtabID(kernGpos(k)) }
+
+func (ft *FileTables) Outlines() sfnt.Outlines  { return ft.outlines }
+func (ft *FileTables) Cmap() (cmap.Table, bool) { return ft.cmap, ft.hasCmap }
+func (ft *FileTables) Names() *name.Info        { return ft.names }
+func (ft *FileTables) Post() *post.Info         { return ft.post }
+func (ft *FileTables) Gdef() *gdef.Table        { return ft.gdef }
+func (ft *FileTables) Gsub() *gtab.Info         { return ft.gsub }
+func (ft *FileTables) Gpos() *gtab.Info         { return ft.gpos }
+func (ft *FileTables) Kern() kern.Info          { return ft.kern }
+func (ft *FileTables) Maxp() *maxp.Info         { return ft.maxp }
+func (ft *FileTables) IsCFF() bool              { return ft.cff }
